@@ -26,7 +26,7 @@ Ltac norm := cbn [bind]; rewrite ?lacks_front_ok, ?wrap_needed_ok, ?set_hc_twice
 
 Lemma claim_spec m st rq :
   cap_ok (r_cap st) -> 0 <= r_hc st <= r_head st -> r_head st <= r_tail st ->
-  r_tail st - r_head st <= r_cap st -> r_tail st - r_hc st < two31 -> r_tail st < two62 ->
+  r_tail st - r_head st <= r_cap st -> r_tail st < two62 ->
   8 <= rq <= two30 ->
   exists hc', (hc' = r_hc st \/ hc' = r_head st) /\
     ((r_tail st - r_head st) + rq + pad_of (r_cap st) (r_tail st) rq <= r_cap st ->
@@ -37,7 +37,7 @@ Lemma claim_spec m st rq :
         else (set_tail (set_hc st hc') (r_tail st + rq + pad_of (r_cap st) (r_tail st) rq),
               Some (r_tail st, pad_of (r_cap st) (r_tail st) rq))).
 Proof.
-  intros Hcap Hhc Hht Hsz Hst Hb Hrq.
+  intros Hcap Hhc Hht Hsz Hb Hrq.
   pose proof (cap_ok_range _ Hcap) as Hcr.
   pose proof (mod_range (r_cap st) (r_tail st) Hcap) as Htm.
   unfold claim.
@@ -116,8 +116,7 @@ Record wf (st : ring) : Prop := mkWf {
   wf_hc : 0 <= r_hc st <= r_head st;
   wf_h8 : r_head st mod 8 = 0;
   wf_chain : chain (r_cap st) (r_head st) (r_tail st) (r_slots st);
-  wf_size : r_tail st - r_head st <= r_cap st;
-  wf_stale : r_tail st - r_hc st < two31
+  wf_size : r_tail st - r_head st <= r_cap st
 }.
 
 Definition abs_slots (sl : list slot) : fifo :=
@@ -206,7 +205,7 @@ Lemma write_spec m st typ body :
          r_slots st' = r_slots st ++ pad_slots (r_tail st) (wrap_pad cp (r_tail st) n) 0 (-1) ++
                        [mkSlot (r_tail st + wrap_pad cp (r_tail st) n) (rec_bytes n) (n + 8) typ body 0 0]) ).
 Proof.
-  intros W Hb Hty. destruct W as [Hcap Hhc Hh8 Hch Hsz Hst].
+  intros W Hb Hty. destruct W as [Hcap Hhc Hh8 Hch Hsz].
   pose proof (cap_ok_range _ Hcap) as Hcr.
   pose proof (chain_le _ _ _ _ Hch) as Hle.
   pose proof (chain_mod8 _ _ _ _ Hch Hh8) as Ht8.
@@ -225,7 +224,7 @@ Proof.
   rewrite ralign_ok by (unfold two30 in *; lia). cbn [bind].
   pose proof (rec_bytes_bounds n ltac:(lia)) as (Hr8 & Hrb & Hrm).
   change (align (n + 8) 8) with (rec_bytes n).
-  destruct (claim_spec m st (rec_bytes n) Hcap Hhc Hle Hsz Hst Hb ltac:(unfold two30 in *; lia))
+  destruct (claim_spec m st (rec_bytes n) Hcap Hhc Hle Hsz Hb ltac:(unfold two30 in *; lia))
     as (hc' & Hhc' & Hstale & ->).
   cbn [bind]. rewrite pad_of_wrap_pad in *.
   pose proof (wrap_pad_bounds (r_cap st) (r_tail st) n Hcap) as Hpb.
@@ -275,8 +274,7 @@ Proof.
           replace (r_tail st + rec_bytes n + (r_cap st - r_tail st mod r_cap st))
             with (r_tail st + (r_cap st - r_tail st mod r_cap st) + rec_bytes n) by lia.
           exact C.
-      - destruct (pad_slots (r_tail st) (wrap_pad (r_cap st) (r_tail st) n) 0 (-1)); discriminate.
-      - unfold two31, two30 in *. lia. }
+      - destruct (pad_slots (r_tail st) (wrap_pad (r_cap st) (r_tail st) n) 0 (-1)); discriminate. }
     cbn [set_tail set_hc set_slots r_cap r_head r_tail r_hc r_slots r_corr r_hb].
     repeat split; auto. right; right; right. repeat split; auto; lia.
 Qed.
@@ -444,7 +442,7 @@ Lemma read_spec m st limit :
     (exists used, r_slots st = used ++ r_slots st' /\
         Forall (fun s => r_head st <= s_pos s /\ s_pos s + s_span s <= r_head st') used).
 Proof.
-  intros W Hb. destruct W as [Hcap Hhc Hh8 Hch Hsz Hst].
+  intros W Hb. destruct W as [Hcap Hhc Hh8 Hch Hsz].
   pose proof (cap_ok_range _ Hcap) as Hcr.
   pose proof (chain_le _ _ _ _ Hch) as Hle.
   pose proof (mod_range (r_cap st) (r_head st) Hcap) as Hhm.
